@@ -9,7 +9,7 @@ Correspondence (Corr/C06.v, Model/Errors.v), all numeric comparisons on SQUARED 
     which also re-checks shortcut == residual exactly in Q on that instance);
   * PARAFAC2: the model evaluates the slice-wise shortcut (both forms of B_i^T X_i) AND the residual from scratch from the returned
     (weights, (A, B, C), projections) -- they must coincide exactly -- and compares with (reported)^2; direct calls of
-    _parafac2_reconstruction_error on random (non-orthonormal) decompositions with slices of different heights;
+    _parafac2_reconstruction_error on random decompositions with slices of different heights;
   * HOOI: (reported)^2 against the model of the shortcut |norm^2 - norm(core)^2| (KHooi) and against the residual from scratch (KTucker);
   * convergence-stopped runs (tol > 0): the last reported value against the returned decomposition (break paths);
   * skeleton traces: number of reports / callbacks / block updates / break for chosen decision sequences.
@@ -278,6 +278,19 @@ def run_parafac2(X, rank, k, seed, opts):
     import tensorly as tl
     from tensorly.decomposition import parafac2
     opts = dict(opts)
+    if opts.pop("_reject_jumps", False):
+        # a line search that computes its candidate as usual and then REJECTS it, answering exactly what the real line_step answers
+        # on a rejection (the iterate and the error value it was given): the decision sequence "always reject", reachable with data
+        # but rarely (about 1 run in 20), made deterministic through the documented extension point linesearch=<instance>
+        from tensorly.decomposition._parafac2 import _BroThesisLineSearch
+
+        class Rejecting(_BroThesisLineSearch):
+            def line_step(self, iteration, tensor_slices, factors_last, weights, factors, projections, rec_error):
+                super().line_step(iteration, tensor_slices, factors_last, weights, factors, projections, rec_error)
+                print("Line search failed (forced by the harness)")
+                return factors, projections, rec_error
+        norm = math.sqrt(float(np.sum(np.asarray(X, dtype=float) ** 2)))
+        opts["linesearch"] = Rejecting(norm, "truncated_svd", verbose=False, nn_modes=opts.get("nn_modes"), random_state=np.random.RandomState(seed))
     buf = io.StringIO()
     with contextlib.redirect_stdout(buf):
         out, errs = parafac2(np.array(X), rank, n_iter_max=k, tol=opts.pop("_tol", 1e-300), return_errors=True, random_state=seed,
@@ -343,6 +356,7 @@ def configs(tier):
     q = tier == "quick"
     K = [1, 2, 3] if q else [1, 2, 3, 4, 6, 9, 12]
     KL = [7, 9] if q else [7, 8, 9, 11, 13]
+    KT = [60]                      # convergence-stopped runs: n_iter_max large, tol > 0
     G = ["generic", "lowrank", "integer"]
     NN = ["nonneg", "nn_lowrank", "nn_integer"]
     o234 = [2, 3, 4]
@@ -357,6 +371,12 @@ def configs(tier):
         ("parafac_ls", "tensorly.decomposition.parafac", run_parafac, dict(init="random", linesearch=True), G, [3, 4], KL),
         ("parafac_ls_cb", "tensorly.decomposition.parafac", run_parafac, dict(init="random", linesearch=True, _cb=True), G, [2, 3], KL[-1:]),
         ("parafac_ls_norm", "tensorly.decomposition.parafac", run_parafac, dict(init="random", linesearch=True, normalize_factors=True), G, [3], KL),
+        ("parafac_ls_mask", "tensorly.decomposition.parafac", run_parafac, dict(init="random", linesearch=True, _mask=True), G, [3], KL),
+        ("parafac_ls_sparse", "tensorly.decomposition.parafac", run_parafac, dict(init="random", linesearch=True, sparsity=3), G, [3], KL[:1]),
+        ("parafac_orth", "tensorly.decomposition.parafac", run_parafac, dict(init="random", orthogonalise=2), G, [3], K),
+        ("parafac_tol", "tensorly.decomposition.parafac", run_parafac, dict(init="random", _tol=1e-3), G, [2, 3], KT),
+        ("parafac_tol_norm", "tensorly.decomposition.parafac", run_parafac, dict(init="random", _tol=1e-3, normalize_factors=True, cvg_criterion="rec_error"), G, [3, 4], KT),
+        ("parafac_tol_ls", "tensorly.decomposition.parafac", run_parafac, dict(init="random", _tol=1e-4, linesearch=True, normalize_factors=True), G, [3], [120]),
         ("parafac_sparse", "tensorly.decomposition.parafac", run_parafac, dict(init="random", sparsity=0.15), G, [3], K),
         ("parafac_sparse_cb", "tensorly.decomposition.parafac", run_parafac, dict(init="random", sparsity=3, _cb=True), G, [3], K[-1:]),
         ("parafac_mask", "tensorly.decomposition.parafac", run_parafac, dict(init="random", _mask=True), G, [2, 3], K),
@@ -367,6 +387,8 @@ def configs(tier):
         ("nn_parafac_norm", "tensorly.decomposition.non_negative_parafac", run_nn_parafac, dict(init="random", normalize_factors=True), NN, o234, K),
         ("nn_parafac_mask", "tensorly.decomposition.non_negative_parafac", run_nn_parafac, dict(init="random", _mask=True), NN, [3], K),
         ("nn_parafac_fixed", "tensorly.decomposition.non_negative_parafac", run_nn_parafac, dict(_init="plain", fixed_modes=[1]), NN, [3], K),
+        ("nn_parafac_tol", "tensorly.decomposition.non_negative_parafac", run_nn_parafac, dict(init="random", _tol=1e-3, normalize_factors=True), NN, [3], KT),
+        ("hals_tol", "tensorly.decomposition.non_negative_parafac_hals", run_hals, dict(init="random", _tol=1e-3, normalize_factors=True), NN, [3], KT),
         ("hals", "tensorly.decomposition.non_negative_parafac_hals", run_hals, dict(init="random"), NN, o234, K),
         ("hals_norm", "tensorly.decomposition.non_negative_parafac_hals", run_hals, dict(init="random", normalize_factors=True), NN, o234, K),
         ("hals_svd", "tensorly.decomposition.non_negative_parafac_hals", run_hals, dict(init="svd"), NN, [3], K),
@@ -377,7 +399,11 @@ def configs(tier):
         ("constrained_nn", "tensorly.decomposition.constrained_parafac", run_constrained, dict(non_negative=True), NN, o234, K),
         ("constrained_l2", "tensorly.decomposition.constrained_parafac", run_constrained, dict(l2_square_reg=0.05), G, [3], K),
         ("constrained_fixed", "tensorly.decomposition.constrained_parafac", run_constrained, dict(non_negative=True, fixed_modes=[0]), NN, [3], K),
+        ("constrained_tol", "tensorly.decomposition.constrained_parafac", run_constrained, dict(non_negative=True, _tol=1e-3), NN, [3], KT),
         ("tucker_svd", "tensorly.decomposition.tucker", run_tucker, dict(init="svd"), G, o234, K),
+        ("tucker_tol", "tensorly.decomposition.tucker", run_tucker, dict(init="random", _tol=1e-4), G, [3], KT),
+        ("tucker_mask", "tensorly.decomposition.tucker", run_tucker, dict(init="random", _mask=True), G, [3], K),
+        ("partial_tucker_mask", "tensorly.decomposition.partial_tucker", run_partial_tucker, dict(modes="tail", init="svd", _mask=True), G, [3], K[:2]),
         ("tucker_random", "tensorly.decomposition.tucker", run_tucker, dict(init="random"), G, o234, K),
         ("partial_tucker", "tensorly.decomposition.partial_tucker", run_partial_tucker, dict(modes="tail"), G, [3, 4], K),
         ("partial_tucker_mid", "tensorly.decomposition.partial_tucker", run_partial_tucker, dict(modes="mid"), G, [3], K),
@@ -385,17 +411,32 @@ def configs(tier):
         ("nn_tucker_norm", "tensorly.decomposition.non_negative_tucker", run_nn_tucker, dict(init="random", normalize_factors=True), NN, [3], K),
         ("nn_tucker_hals", "tensorly.decomposition.non_negative_tucker_hals", run_nn_tucker_hals, dict(init="svd"), NN, [2, 3], K),
         ("nn_tucker_hals_as", "tensorly.decomposition.non_negative_tucker_hals", run_nn_tucker_hals, dict(init="svd", algorithm="active_set"), NN, [3], K),
+        ("nn_tucker_tol", "tensorly.decomposition.non_negative_tucker", run_nn_tucker, dict(init="random", _tol=1e-3, normalize_factors=True), NN, [3], KT),
+        ("nn_tucker_hals_tol", "tensorly.decomposition.non_negative_tucker_hals", run_nn_tucker_hals, dict(init="svd", _tol=1e-3), NN, [3], KT),
         ("parafac2", "tensorly.decomposition.parafac2", run_parafac2, dict(), G, [3], K),
+        ("parafac2_ls", "tensorly.decomposition.parafac2", run_parafac2, dict(), G, [3], KL),
+        ("parafac2_ls_norm", "tensorly.decomposition.parafac2", run_parafac2, dict(normalize_factors=True), G, [3], KL[:1]),
+        ("parafac2_nols", "tensorly.decomposition.parafac2", run_parafac2, dict(linesearch=False), G, [3], KL[:1]),
+        ("parafac2_ls_reject", "tensorly.decomposition.parafac2", run_parafac2, dict(_reject_jumps=True), G, [3], KL),
+        ("parafac2_tol", "tensorly.decomposition.parafac2", run_parafac2, dict(_tol=1e-4, linesearch=False), G, [3], KT),
         ("parafac2_norm", "tensorly.decomposition.parafac2", run_parafac2, dict(normalize_factors=True), G, [3], K),
         ("parafac2_nn", "tensorly.decomposition.parafac2", run_parafac2, dict(nn_modes=[0]), NN, [3], K),
         ("tr_als", "tensorly.decomposition.tensor_ring_als", run_tr_als, dict(ls_solve="lstsq"), G, [3, 4], K[-1:]),
         ("tr_als_ne", "tensorly.decomposition.tensor_ring_als", run_tr_als, dict(ls_solve="normal_eq"), G, [3], K[-1:]),
         ("randomised", "tensorly.decomposition.randomised_parafac", run_randomised, dict(), G, [3, 4], K),
         ("randomised_cb", "tensorly.decomposition.randomised_parafac", run_randomised, dict(_cb=True), G, [3], K[-1:]),
+        ("randomised_tol", "tensorly.decomposition.randomised_parafac", run_randomised, dict(_tol=1e-2), G, [3], KT),
         ("cmtf", "tensorly.decomposition._cmtf_als.coupled_matrix_tensor_3d_factorization", run_cmtf, dict(init="svd"), G, [3], K),
+        ("cmtf_tol", "tensorly.decomposition._cmtf_als.coupled_matrix_tensor_3d_factorization", run_cmtf, dict(init="svd", _tol=1e-3), G, [3], KT),
         ("cmtf_norm", "tensorly.decomposition._cmtf_als.coupled_matrix_tensor_3d_factorization", run_cmtf, dict(init="random", normalize_factors=True), G, [3], K),
     ]
     return cfg
+
+
+NO_PREFIX = ("nn_tucker_hals", "parafac2_ls")   # (parafac2_ls_reject included by prefix)   # fista/active-set inner loops are capped by the OUTER n_iter_max; PARAFAC2's line search overwrites rec_errors[-1]
+LS_CONFIGS = ("parafac_ls", "parafac_ls_cb", "parafac_ls_norm", "parafac_ls_mask", "parafac_ls_sparse", "parafac2_ls", "parafac2_ls_norm")
+# shapes whose last two modes have the same size: a shortcut pairing the MTTKRP with the wrong factor then yields a wrong NUMBER instead of a shape error
+SHAPES_EQ = {2: [(4, 4)], 3: [(4, 3, 3), (3, 4, 4)], 4: [(2, 3, 3, 3)]}
 
 
 def concretise(opts, X, rank, rs):
@@ -427,12 +468,26 @@ def iterate_case(X, it, rep):
         return lit, rel2(X, L, it["S"], it["mask"])
     if it["kind"] == "tucker":
         L = tucker_dense(it["G"], it["fs"])
-        lit = lambda P: f"(KTucker {P.t(X)} {P.t(it['G'])} {P.ts(it['fs'])} {P.num(rep)})"
-        return lit, rel2(X, L)
+        lit = lambda P: f"(KTucker {P.t(X)} {P.t(it['G'])} {P.ts(it['fs'])} {P.opt_t(it.get('mask'))} {P.num(rep)})"
+        return lit, rel2(X, L, None, it.get("mask"))
+    if it["kind"] == "parafac2":
+        lit = lambda P: (f"(KParafac2 {P.ts(it['slices'])} {P.opt_w(it['w'])} {P.t(it['A'])} {P.t(it['B'])} {P.t(it['C'])} "
+                         f"{P.ts(it['Ps'])} {P.num(rep)})")
+        return lit, p2_rel2(it)
     if it["kind"] == "dense":
         lit = lambda P: f"(KDense {P.t(X)} {P.t(it['L'])} {P.num(rep)})"
         return lit, rel2(X, it["L"])
     raise KeyError(it["kind"])
+
+
+def p2_rel2(it):
+    """squared relative PARAFAC2 error from scratch (own arithmetic): sum_i ||X_i - (P_i B * (A[i] w)) C^T||^2 / sum_i ||X_i||^2"""
+    w = np.ones(it["A"].shape[1]) if it["w"] is None else it["w"]
+    num = den = 0.0
+    for i, Xi in enumerate(it["slices"]):
+        Li = ((it["Ps"][i] @ it["B"]) * (it["A"][i] * w)) @ it["C"].T
+        num += float(np.sum((Xi - Li) ** 2)); den += float(np.sum(Xi * Xi))
+    return num / den
 
 
 def cmtf_case(X, it, rep):
@@ -454,8 +509,11 @@ class Collector:
         self.cases = []
         self.meta = []
 
-    def add(self, lit, meta):
-        """lit: function of a Lit printer.  Every case runs on dyadics; every 8th one is also run with Qops."""
+    def add(self, lit, meta, expect_fail=False):
+        """lit: function of a Lit printer.  Every case runs on dyadics; every 8th one is also run with Qops.
+        expect_fail: the Python predicate already failed on this input (a finding carries it): the Coq case is then expected
+        to fail as well and is not reported a second time as a bare disagreement."""
+        meta = dict(meta, expect_fail=expect_fail)
         cid = len(self.cases)
         self.cases.append(f"({cid}%nat, inl {lit(LD)})")
         self.meta.append(meta)
@@ -476,6 +534,8 @@ def check_run(col, name, entry, X, kind, rank, k, seed, opts, rec, light=False):
     """predicates on one run + Coq cases; returns number of findings"""
     chk = col.chk
     inputs = describe(name, entry, X, kind, rank, k, seed, opts)
+    if rec.ls:
+        inputs["observed_linesearch_decisions"] = list(rec.ls)
     nf = 0
     vals = list(rec.errors or []) + [e for _, e in rec.cb if e is not None]
     if any(not math.isfinite(v) for v in vals):
@@ -501,8 +561,14 @@ def check_run(col, name, entry, X, kind, rank, k, seed, opts, rec, light=False):
             lit, mine = iterate_case(X, rec.final, rep)
             theirs = rep * rep
             ok = close(mine, theirs)
-        col.add(lit, dict(inputs=inputs, what="last reported value vs returned decomposition", entry=entry))
+        col.add(lit, dict(inputs=inputs, what="last reported value vs returned decomposition", entry=entry), expect_fail=not ok)
         chk.count(key=(name, X.shape, kind, k), nontrivial=True)
+        if rec.final.get("hooi"):
+            # the model of HOOI's shortcut itself (|norm^2 - norm(core)^2| / norm^2) against the reported value
+            G_ = rec.final["G"]
+            col.add(lambda P, G_=G_, rep=rep: f"(KHooi {P.t(X)} {P.t(G_)} {P.num(rep)})",
+                    dict(inputs=inputs, what="HOOI shortcut |norm^2 - norm(core)^2| vs reported value", entry=entry), expect_fail=not ok)
+            chk.count(key=(name, X.shape, kind, k, "hooi"), nontrivial=True)
         if not ok:
             chk.finding(entry, inputs, f"{name}: last reported error (squared: {theirs!r}) is not the error of the returned decomposition "
                         f"(squared, recomputed: {mine!r})", "C06_last_report_is_error_of_returned", observed=theirs, expected=mine)
@@ -512,7 +578,8 @@ def check_run(col, name, entry, X, kind, rank, k, seed, opts, rec, light=False):
         if e is None:
             continue
         lit, mine = iterate_case(X, it, e)
-        col.add(lit, dict(inputs=inputs, what=f"callback #{j} value vs the decomposition handed to the callback", entry=entry))
+        col.add(lit, dict(inputs=inputs, what=f"callback #{j} value vs the decomposition handed to the callback", entry=entry),
+                expect_fail=not close(mine, e * e))
         chk.count(key=(name, X.shape, kind, k, "cb", j), nontrivial=True)
         if not close(mine, e * e):
             chk.finding(entry, dict(inputs, callback_index=j), f"{name}: callback #{j} received error {e!r} (squared {e*e!r}) but the decomposition "
@@ -630,20 +697,76 @@ def trace_cases(col, tier, rng):
         chk.hist("kind", "trace")
 
 
+# ----------------------------------------------------------------------------- direct calls of _parafac2_reconstruction_error
+def parafac2_error_cases(col, tier, rng):
+    """random decompositions (orthonormal projections - the function validates that -, slices of different heights, with / without
+    weights, with / without the projected tensor): reported value vs the model's shortcut and residual from scratch"""
+    from tensorly.decomposition._parafac2 import _parafac2_reconstruction_error
+    chk = col.chk
+    entry = "tensorly.decomposition._parafac2._parafac2_reconstruction_error"
+    for rep_i in range(4 if tier == "quick" else 16):
+        rs = np.random.RandomState(rng.randrange(2 ** 31))
+        I, K, R = rs.randint(2, 4), rs.randint(2, 5), rs.randint(1, 4)
+        Js = [int(rs.randint(R, R + 3)) for _ in range(I)]
+        integer = rep_i % 2 == 0
+        draw = (lambda *sh: rs.randint(-2, 3, sh).astype(float)) if integer else (lambda *sh: rs.standard_normal(sh))
+        slices = [draw(J, K) for J in Js]
+        if not any(np.any(x) for x in slices):
+            slices[0][0, 0] = 1.0
+        A, B, Cm = draw(I, R), draw(R, R), draw(K, R)
+        if integer:
+            # signed selection matrices: orthonormal columns with integer entries
+            Ps = []
+            for J in Js:
+                P = np.zeros((J, R)); rows = rs.permutation(J)[:R]
+                P[rows, np.arange(R)] = rs.choice([-1.0, 1.0], R)
+                Ps.append(P)
+        else:
+            Ps = [np.linalg.qr(rs.standard_normal((J, R)))[0] for J in Js]
+        w = None if rep_i % 4 < 2 else (rs.randint(1, 4, R).astype(float) if integer else rs.uniform(0.5, 2, R))
+        it = dict(kind="parafac2", w=w, A=A, B=B, C=Cm, Ps=Ps, slices=slices)
+        normX = math.sqrt(sum(float(np.sum(x * x)) for x in slices))
+        for with_proj in (False, True):
+            proj = [P.T @ x for P, x in zip(Ps, slices)] if with_proj else None
+            st, out = C.call_impl(_parafac2_reconstruction_error, [np.array(x) for x in slices], (None if w is None else np.array(w), (A, B, Cm), Ps),
+                                  normX if rep_i % 3 else None, proj)
+            if st != "ok":
+                chk.hist("skipped", f"p2 direct: {str(out)[:60]}")
+                continue
+            rep = float(out) / normX
+            mine = p2_rel2(it)
+            bad = not math.isfinite(rep) or not close(mine, rep * rep)
+            inputs = {"slices": slices, "weights": w, "A": A, "B": B, "C": Cm, "projections": Ps, "with_projected_tensor": with_proj,
+                      "norm_given": bool(rep_i % 3)}
+            lit, _ = iterate_case(None, it, rep)
+            col.add(lit, dict(inputs=inputs, what="_parafac2_reconstruction_error", entry=entry), expect_fail=bad)
+            chk.count(key=("p2_error", tuple(Js), K, R, integer, w is None, with_proj))
+            if bad:
+                chk.finding(entry, inputs, f"_parafac2_reconstruction_error returned relative error {rep!r} (squared {rep*rep!r}); from scratch {mine!r}",
+                            "C06_parafac2_error", observed=rep * rep, expected=mine)
+
+
 # ----------------------------------------------------------------------------- main
 def gen_runs(tier, rng):
     shapes = SHAPES_Q if tier == "quick" else SHAPES_T
     for (name, entry, runner, opts, kinds, orders, ks) in configs(tier):
         for order in orders:
             shp = shapes[order]
+            if "fixed_last" in name or name in ("nn_parafac_fixed", "constrained_fixed"):
+                shp = SHAPES_EQ[order] + (shp if tier != "quick" else [])
             if tier == "quick":
                 # one shape per (config, order), data kind rotating with the seed
                 picks = [(shp[rng.randrange(len(shp))], kinds[rng.randrange(len(kinds))])]
             else:
                 picks = [(s, kd) for s in shp for kd in kinds]
+            if name in LS_CONFIGS:
+                # several seeds: accepted AND rejected jumps at the last iteration are both wanted (decisions are data dependent);
+                # run() stops drawing further seeds for a configuration once both have been seen
+                if tier == "quick":
+                    picks = picks + [(shp[rng.randrange(len(shp))], kinds[j % len(kinds)]) for j in range(11)]
+                else:
+                    picks = picks * 3
             for shape, kind in picks:
-                if name.startswith("parafac2") or name.startswith("cmtf"):
-                    pass
                 seed = rng.randrange(1, 2 ** 31 - 1)
                 rank = 2 if min(shape) < 3 or rng.random() < 0.5 else 3
                 if name.startswith("parafac2"):
@@ -655,14 +778,101 @@ def one_run(runner, X, rank, k, seed, o):
     return C.call_impl(runner, X, rank, k, seed, o, timeout=60)
 
 
+def series(rec):
+    return list(rec.errors) if rec.errors is not None else [e for _, e in rec.cb if e is not None]
+
+
+def prefix_consistency(chk, name, entry, X, kind, rank, seed, o, recs):
+    """the list of the longest run, cut after k iterations, must be the list of the k-run (same seed, same init): every entry of a
+    returned list then is the value some prefix run reports LAST, which is checked against that run's returned iterate"""
+    if len(recs) < 2 or name.startswith(NO_PREFIX) or "_tol" in o:
+        return
+    K = max(recs)
+    long = series(recs[K])
+    for k in sorted(recs):
+        if k == K:
+            continue
+        short = series(recs[k])
+        if len(long) - len(short) != K - k:
+            continue        # not one value per iteration (nothing to align)
+        bad = [j for j, (a, b) in enumerate(zip(long, short)) if not close(a * a, b * b)] if not recs[K].squared_unnormalised else \
+              [j for j, (a, b) in enumerate(zip(long, short)) if abs(a - b) > 1e-9 * (abs(a) + abs(b)) + 1e-12]
+        chk.count(key=(name, X.shape, kind, "prefix", k), nontrivial=True)
+        if bad:
+            inputs = describe(name, entry, X, kind, rank, K, seed, o)
+            inputs["shorter_n_iter_max"] = k
+            chk.finding(entry, inputs, f"{name}: entries {bad} of the list returned for n_iter_max={K} ({long}) differ from the list returned for "
+                        f"n_iter_max={k} ({short}) with the same seed: those entries are not the errors of the iterates of their iterations",
+                        "C06_list_prefix_consistent", observed=long, expected=short)
+
+
+# ----------------------------------------------------------------------------- known findings (classifiers on the failing input)
+def _cfg(f):
+    return str((f.get("inputs") or {}).get("config", ""))
+
+
+def clf_parafac2_rejected_jump_last(f):
+    """parafac2 with its (default) line search, last iteration is a line-search iteration (index even and > 5)"""
+    inp = f.get("inputs") or {}
+    k = inp.get("n_iter_max", 0)
+    ls_on = (inp.get("options") or {}).get("linesearch", True) is not False
+    dec = inp.get("observed_linesearch_decisions")
+    rejected = (dec is None) or (len(dec) > 0 and dec[-1] is False)
+    return (_cfg(f).startswith("parafac2") and f["predicate"] == "C06_last_report_is_error_of_returned" and ls_on
+            and k - 1 > 5 and (k - 1) % 2 == 0 and rejected)
+
+
+def clf_hooi_masked(f):
+    inp = f.get("inputs") or {}
+    return (_cfg(f).startswith(("tucker", "partial_tucker")) and (inp.get("options") or {}).get("mask") is not None
+            and f["predicate"] == "C06_last_report_is_error_of_returned")
+
+
+def clf_cmtf_converged(f):
+    inp = f.get("inputs") or {}
+    return (_cfg(f).startswith("cmtf") and ((inp.get("options") or {}).get("_tol") or 0) > 0
+            and f["predicate"] == "C06_last_report_is_error_of_returned")
+
+
+CLASSIFIERS = {"parafac2_rejected_jump_last": clf_parafac2_rejected_jump_last, "hooi_masked": clf_hooi_masked,
+               "cmtf_converged": clf_cmtf_converged}
+
+
+def _install_local_known():
+    """common.load_known reads the aggregated known_findings.json (regenerated by the coordinator); until then this module's own
+    known_findings.d/C06.json is merged in at run time (local helper, common.py is untouched)"""
+    orig = C.load_known
+    if getattr(orig, "_c06", False):
+        return
+
+    def load_known(prop):
+        ks = list(orig(prop))
+        p = os.path.join(C.VERIF, "known_findings.d", "C06.json")
+        if prop == "C06" and os.path.exists(p):
+            have = {k.get("id") for k in ks}
+            ks += [k for k in json.load(open(p)).get("findings", []) if k.get("property") == "C06" and k.get("id") not in have]
+        return ks
+    load_known._c06 = True
+    C.load_known = load_known
+
+
 def run(chk):
     rng = random.Random(chk.seed)
     chk.build_proofs()
     C.reset_backends()
+    _install_local_known()
     col = Collector(chk)
     skipped = 0
     nruns = 0
+    ls_seen = {}
     for (name, entry, runner, opts, kind, shape, rank, seed, ks) in gen_runs(chk.tier, rng):
+        if name in LS_CONFIGS and chk.tier == "quick":
+            seen = ls_seen.setdefault(name, {"n": 0, "acc": 0, "rej": 0})
+            if seen["n"] >= 2 and seen["acc"] and seen["rej"]:
+                continue
+            seen["n"] += 1
+            if seen["n"] > 1:
+                ks = ks[:1]          # the extra seeds only run the shortest line-search prefix
         rs = np.random.RandomState(seed)
         X = make_tensor(kind, shape, rank, rs)
         if not np.any(X):
@@ -671,20 +881,30 @@ def run(chk):
         if name.startswith("cmtf"):
             A = rs.standard_normal((shape[0], rank)); V = rs.standard_normal((3, rank))
             o["_Y"] = A @ V.T + 0.1 * rs.standard_normal((shape[0], 3))
+        recs = {}
         for k in ks:
             st, rec = one_run(runner, X, rank, k, seed, o)
             nruns += 1
             chk.hist("algorithm", name); chk.hist("order", len(shape)); chk.hist("data", kind); chk.hist("outcome", st)
             if st != "ok":
-                # degenerate problems (singular Gram matrices, ...) raise: outside the well-conditioned premise, counted
+                # degenerate problems (singular Gram matrices, ...) raise, loaded machines time out: outside the premise, counted
                 skipped += 1
                 chk.hist("skipped", f"{name}: {str(rec)[:60]}")
                 continue
+            recs[k] = rec
             nf = check_run(col, name, entry, X, kind, rank, k, seed, o, rec)
+            if "_tol" in o:
+                chk.hist("stopped_by_convergence", f"{name}: {len(series(rec)) < k}")
+            if name in LS_CONFIGS and (k - 1) > 5 and (k - 1) % 2 == 0 and rec.ls:
+                chk.hist("linesearch_at_last_iteration", f"{name.split('_')[0]}: {'accepted' if rec.ls[-1] else 'rejected'}")
+                if name in ls_seen:
+                    ls_seen[name]["acc" if rec.ls[-1] else "rej"] += 1
             if nruns % 97 == 1:
                 chk.sample({"config": name, "shape": list(shape), "data": kind, "rank": rank, "n_iter_max": k,
-                            "reported": (rec.errors or [e for _, e in rec.cb])[-3:], "findings": nf})
+                            "reported": series(rec)[-3:], "findings": nf})
+        prefix_consistency(chk, name, entry, X, kind, rank, seed, o, recs)
     error_calc_cases(col, chk.tier, rng)
+    parafac2_error_cases(col, chk.tier, rng)
     trace_cases(col, chk.tier, rng)
     failing, n_eval, broken = C.run_case_shards("C06", HEADER, "case", col.cases, shard=40 if chk.tier == "quick" else 120)
     chk.checker_cmds.append("coqc (vm_compute) on generated build/cases/C06/*.v: Corr.C06.failing")
@@ -692,22 +912,29 @@ def run(chk):
     chk.cov["skipped_ill_conditioned_or_raising"] = skipped
     chk.cov["runs"] = nruns
     chk.cov["rule"] = ("every algorithm configuration of the table in harness/props/C06.py:configs x tensor order 2-4 x data kind (generic / exactly low-rank / "
-                       "non-negative / integer, <= 60 entries) x prefix length n_iter_max = k (quick: 1..3, line search 7 and 9; thorough: up to 13); "
+                       "non-negative / integer, <= 60 entries) x prefix length n_iter_max = k (quick: 1..3, line search 7 and 9 with several seeds so that accepted "
+                       "and rejected jumps occur at the last iteration; thorough: up to 13) + convergence-stopped runs (tol > 0, n_iter_max = 60); "
                        "one Coq case per (run, last reported value) and per callback invocation; + direct error_calc calls in all four branches; "
-                       "+ loop-skeleton trace projections.  distinct key = (configuration, shape, data kind, k[, callback index])")
+                       "+ direct _parafac2_reconstruction_error calls; + loop-skeleton trace projections.  distinct key = (configuration, shape, data kind, k[, callback index])")
     for b in broken:
         chk.broken.append({"what": "correspondence corr:C06 shard not evaluated", "detail": b})
     for i in sorted(failing):
         m = col.meta[i]
+        if m.get("expect_fail"):
+            continue        # the Python predicate failed on the same input: reported as a finding (classified there)
         chk.disagreement("corr:C06 (Model/Errors.v vs reported errors of " + m["entry"] + ")", {"what": m["what"], "inputs": m["inputs"]})
-    chk.assumptions = ["inputs are well-conditioned by construction (runs that raise LinAlgError/ValueError are skipped and counted)",
+    unexpected_agree = [i for i, m in enumerate(col.meta) if m.get("expect_fail") and i not in failing]
+    if unexpected_agree and not broken:
+        chk.notes.append(f"{len(unexpected_agree)} case(s) failed the Python predicate but agreed in Coq (borderline tolerance)")
+    chk.assumptions = ["inputs are well-conditioned by construction (runs that raise LinAlgError/ValueError or time out are skipped and counted)",
                        "0/1 masks; real data (complex conjugation in error_calc is outside the model)",
-                       "convergence tests neutralised (tol=0 where errors are still produced, 1e-300 where tol gates the error computation): "
-                       "the break paths are covered by the skeleton theorem and the callback-driven stops only"]
-    chk.trusted = ["PARAFAC2 and tensor-ring reconstructions are taken from the implementation's parafac2_to_tensor / tr_to_tensor (C03 covers them); the model does the norm arithmetic",
+                       "prefix runs: convergence tests neutralised (tol=0 where errors are still produced, 1e-300 where tol gates the error computation); "
+                       "the break paths are covered by the skeleton theorems, the callback-driven stops and the convergence-stopped runs (tol > 0)"]
+    chk.trusted = ["tensor-ring reconstructions are taken from the implementation's tr_to_tensor (C03 covers it); the model does the norm arithmetic",
                    "sparse components are the implementation's (returned, or sparsify_tensor on the imputed residual in the direct error_calc cases)",
-                   "Q execution of the model (Qred after every operation) stands for the ring-regime model on rational inputs; KCPfast re-checks shortcut == residual exactly on each instance"]
-    return chk.finish({})
+                   "line-search decisions are read from the verbose output of parafac / parafac2 (used for coverage histograms and the classifier of the PARAFAC2 finding only)",
+                   "Q / dyadic execution of the model stands for the ring-regime model on rational inputs; KCPfast and KParafac2 re-check shortcut == residual exactly on each instance"]
+    return chk.finish(CLASSIFIERS)
 
 
 def replay(payload):
@@ -739,6 +966,18 @@ def replay(payload):
         bad = not math.isfinite(rep) or not close(mine, rep * rep)
         print("replay error_calc:", rep * rep, "vs", mine, "->", "fails" if bad else "holds")
         return 1 if bad else 0
+    if payload["predicate"] == "C06_parafac2_error":
+        from tensorly.decomposition._parafac2 import _parafac2_reconstruction_error
+        slices = [arr(x) for x in inp["slices"]]; Ps = [arr(x) for x in inp["projections"]]
+        w = arr(inp["weights"]); A, B, Cm = arr(inp["A"]), arr(inp["B"]), arr(inp["C"])
+        it = dict(kind="parafac2", w=w, A=A, B=B, C=Cm, Ps=Ps, slices=slices)
+        normX = math.sqrt(sum(float(np.sum(x * x)) for x in slices))
+        proj = [P.T @ x for P, x in zip(Ps, slices)] if inp.get("with_projected_tensor") else None
+        out = _parafac2_reconstruction_error(slices, (w, (A, B, Cm), Ps), normX if inp.get("norm_given") else None, proj)
+        rep = float(out) / normX; mine = p2_rel2(it)
+        bad = not math.isfinite(rep) or not close(mine, rep * rep)
+        print("replay _parafac2_reconstruction_error:", rep * rep, "vs", mine, "->", "fails" if bad else "holds")
+        return 1 if bad else 0
     name = inp["config"]
     cfgs = {c[0]: c for c in configs("thorough")}
     if name not in cfgs:
@@ -765,6 +1004,15 @@ def replay(payload):
     if st != "ok":
         print("replay: the call raised", rec)
         return 1
+    if payload["predicate"] == "C06_list_prefix_consistent":
+        st2, rec2 = one_run(runner, X, inp["rank"], inp["shorter_n_iter_max"], inp["seed"], o)
+        if st2 != "ok":
+            print("replay: the shorter call raised", rec2)
+            return 1
+        prefix_consistency(sink, name, entry, X, inp["data_kind"], inp["rank"], inp["seed"], o,
+                           {inp["n_iter_max"]: rec, inp["shorter_n_iter_max"]: rec2})
+        print("replay:", name, "prefix consistency ->", "fails" if sink.findings else "holds")
+        return 1 if sink.findings else 0
     nf = check_run(col, name, entry, X, inp["data_kind"], inp["rank"], inp["n_iter_max"], inp["seed"], o, rec)
     print("replay:", name, X.shape, "n_iter_max", inp["n_iter_max"], "->", f"{nf} predicate failure(s)" if nf else "holds")
     return 1 if nf else 0
